@@ -29,6 +29,8 @@ type WriteCase struct {
 	PreCache  bool     `json:"pre_cache"`
 	// SpokLink: the spokfile is a symbolic link to real.spok (which holds the text)
 	SpokLink bool `json:"spok_link,omitempty"`
+	// Elsewhere: spok is started in a directory outside the project with --spokfile <project>/spokfile
+	Elsewhere bool `json:"elsewhere,omitempty"`
 }
 
 var writeTreePool = []string{"main.go", "pkg/a.go", "pkg/sub/b.go", "docs/readme.md", "nested/dir/x.txt", "Makefile", "data/", "nested/.hidden", "spokfile.tmp", "spokfile.bak", ".spokfile.swp", "spokfile~"}
@@ -58,6 +60,7 @@ func genWrite(t *rapid.T) WriteCase {
 	c.Nested = rapid.IntRange(0, 2).Draw(t, "nested") == 2
 	c.PreCache = rapid.IntRange(0, 2).Draw(t, "precache") == 2
 	c.SpokLink = rapid.IntRange(0, 5).Draw(t, "spoklink") == 5
+	c.Elsewhere = rapid.IntRange(0, 5).Draw(t, "elsewhere") == 5
 	var taskNames []string
 	switch k := rapid.IntRange(0, 9).Draw(t, "class"); {
 	case k < 5:
@@ -157,7 +160,7 @@ func execWrite(s *ev.Shard, b *sandbox.Box, c WriteCase) *rp.Fail {
 		}
 		_ = os.Lchown(lp, 65534, 65534)
 	}
-	if err := writeProject(b, b.Home, map[string]string{"beside.txt": "beside"}); err != nil {
+	if err := writeProject(b, b.Home, map[string]string{"beside.txt": "beside", "elsewhere/": "", "elsewhere/other.txt": "o"}); err != nil {
 		return &rp.Fail{Sig: "harness", Msg: err.Error()}
 	}
 	cwd, cwdRel := b.Proj, "proj"
@@ -170,6 +173,11 @@ func execWrite(s *ev.Shard, b *sandbox.Box, c WriteCase) *rp.Fail {
 		return &rp.Fail{Sig: "harness", Msg: err.Error()}
 	}
 	args := append(append([]string(nil), c.Flags...), c.Tasks...)
+	if c.Elsewhere && c.Class != "absent" && !hasFlag(c.Flags, "--init") {
+		// everything spok may touch still sits next to the spokfile, not in the working directory
+		cwd, cwdRel = filepath.Join(b.Home, "elsewhere"), "elsewhere"
+		args = append([]string{"--spokfile", filepath.Join(b.Proj, "spokfile")}, args...)
+	}
 	res := b.Run(cwd, nil, runTimeout, args...)
 	if res.TimedOut {
 		return &rp.Fail{Sig: "harness", Msg: "spok timed out"}
